@@ -247,12 +247,18 @@ def part1(res, tier, rng, wd):
                  "all tables of <=2 definitions of <=2 items over the 6-item alphabet; all tables of <=3 definitions of "
                  "<=2 items over {a, b, S-a, O-(a b)}")]
     else:
-        d3 = all_defs(items, 3)
+        # definitions of <= 3 items: without O-(a b c) (whose 6 orders per occurrence make pairs of 3-item definitions
+        # expensive to decide), and separately over {a, O-(a b), O-(a b c)}
+        noabc = items[:5]
+        d3 = all_defs(noabc, 3)
         n3 = len(d3)
-        extra = [[rng.randint(1, n3), rng.randint(1, n3), rng.randint(1, n3)] for _ in range(60000)]
+        extra = [[rng.randint(1, n3), rng.randint(1, n3), rng.randint(1, n3)] for _ in range(20000)]
+        d3o = all_defs([items[0], items[4], items[5]], 3)
         plan = [("l2d3", d2, [(3, i2)], [], "all tables of <=3 definitions of <=2 items over the 6-item alphabet"),
                 ("l3d2", d3, [(2, list(range(1, n3 + 1)))], extra,
-                 "all tables of <=2 definitions of <=3 items; 60000 seeded tables of 3 definitions of <=3 items")]
+                 "all tables of <=2 definitions of <=3 items over {a, b, S-a, S-(a b), O-(a b)}; 20000 seeded tables of 3 such definitions"),
+                ("l3o", d3o, [(2, list(range(1, len(d3o) + 1)))], [],
+                 "all tables of <=2 definitions of <=3 items over {a, O-(a b), O-(a b c)}")]
     for name, defs, plans, extra, what in plan:
         tj, n, ndcex = tables_level(res, wd, name, defs, plans, extra, stats)
         to_judge += tj
@@ -470,6 +476,42 @@ def table_codes(defs):
     return cs
 
 
+MODMASK = {42: 0x8000, 54: 0x8000, 29: 0x4000, 97: 0x4000, 56: 0x2000, 100: 0x1000, 125: 0x0800, 126: 0x0800}
+
+
+def py_encode(d):
+    """the permitted token strings of a definition (same meaning as SeqTab!StEncode; used only to name input classes)"""
+    outs = [[]]
+    for it in d:
+        if it["t"] == "k":
+            alts = [[it["c"]]]
+        elif it["t"] == "m":
+            toks, mask = [], 0
+            for m in it["mods"]:
+                mask |= MODMASK.get(m, 0)
+                toks.append(m + mask)
+            alts = [toks + [k + mask for k in it["ks"]]]
+        else:
+            alts = [[k + 1024 for k in p] + [1024] for p in itertools.permutations(it["ks"])]
+        outs = [o + a for o in outs for a in alts]
+    return outs
+
+
+def group_then_more_shadowed(t):
+    """Input class of the second known finding: an O-(..) group that is not the end of its sequence, while another
+    sequence begins with the same keys written as plain keys."""
+    encs = [py_encode(d) for d in t]
+    for i, es in enumerate(encs):
+        for e in es:
+            for p, tok in enumerate(e):
+                if tok == 1024 and p < len(e) - 1:
+                    plain = [x % 1024 for x in e[:p] if x != 1024]
+                    for j, fs in enumerate(encs):
+                        if j != i and any(f[:len(plain)] == plain for f in fs):
+                            return True
+    return False
+
+
 def history_tables(tier, rng, wd):
     """Tables for the typing histories: fixed ones + a seeded sample of the part-1 universe, filtered by the real parser."""
     items = alphabet(tier) + [K("c")]
@@ -479,6 +521,10 @@ def history_tables(tier, rng, wd):
              [[M(["lsft"], ["a", "b"])], [M(["lsft"], ["a"]), K("b")]],
              [[K("a"), K("b"), K("c")], [K("b"), K("d")]],
              [[K("lsft"), K("a"), K("b")], [M(["lsft"], ["c", "d"])]],
+             # an O-(..) group followed by more keys, next to a sequence that begins with the same keys as plain keys
+             [[O(["a", "b"]), K("a")], [K("b"), K("a"), K("c")]],
+             [[K("b"), K("a"), O(["a", "b", "c"])], [O(["a", "b"]), M(["lsft"], ["a", "b"]), K("a")]],
+             [[K("a"), O(["a", "b", "c"])], [O(["a", "b"]), M(["lsft"], ["a"])]],
              # right-hand modifiers named in a definition
              [[M(["rsft"], ["a"])], [K("b"), K("a")]],
              [[K("rctl"), K("a")], [M(["rmet"], ["b"])]]]
@@ -500,7 +546,7 @@ def typing_histories(res, tier, rng, wd):
         mode = MODES[i % 3] if i >= 2 else "visible-backspaced"      # the repository tests use visible-backspaced
         # sequence-always-on feeds the virtual key's own output back into the mode, so with hidden-suppressed the
         # observation channel (the output key) is itself suppressed: always-on only with the other two modes
-        always = i >= 9 and i % 4 == 3 and mode != "hidden-suppressed"
+        always = i >= 12 and i % 4 == 3 and mode != "hidden-suppressed"
         codes = table_codes(t)
         names = [kname(c) for c in codes] + ["q"]
         inst, params, kbd = seq_instance("h%d" % i, t, mode, T=T, always=always, leader=not always, keys=tuple(names))
@@ -529,7 +575,8 @@ def typing_histories(res, tier, rng, wd):
         nscripts += len(scripts)
         jobs.append({"cfg": kbd, "params": params, "tag": "h%d" % d["tb"], "scripts": scripts,
                      "table": " ".join(def_text(x) for x in t),
-                     "rightmods": bool(set(table_codes(t)) & {C("rsft"), C("rctl"), C("rmet")})})
+                     "rightmods": bool(set(table_codes(t)) & {C("rsft"), C("rctl"), C("rmet")}),
+                     "shadowed": group_then_more_shadowed(t)})
     log("[c12] typing histories: %d tables, %d histories enumerated by TLC in %.0fs" % (len(tabs), nscripts, r["wall_s"]))
     jobs = shard_local_index(jobs)
     errs = par_validate(res, "P_C12", jobs, wd, "c12_hist", 6 if tier == "quick" else 10)
@@ -541,6 +588,8 @@ def typing_histories(res, tier, rng, wd):
         if bytab[k] > 1 or len(res.violations) >= 15:
             continue
         tag = " [the definition names a right-hand modifier: rsft / rctl / rmet]" if j["rightmods"] else ""
+        if j["shadowed"] and not tag:
+            tag = " [an O-(..) group is followed by more keys and another sequence begins with the same keys as plain keys]"
         flow.classify(res, PID, e["err"], e["err"] + tag + " table=" + j["table"] + " mode=" + j["params"]["mode"] + " cfg=" + j["cfg"],
                       {"property": PID, "cfg": j["cfg"], "params": j["params"], "script": s, "err": e["err"],
                        "monitor": "P_C12"}, "hist_%d" % len(res.violations))
@@ -595,12 +644,12 @@ def run(tier, seed):
         except Exception as e:      # re-raised below
             box["e"] = e
     th = None
-    if only != "2":
+    if only in ("", "1"):
         th = threading.Thread(target=p1)
         th.start()
-    if only not in ("1", "2"):
+    if only in ("", "3"):
         typing_histories(res, tier, rng, wd)
-    if only not in ("1", "3"):
+    if only in ("", "2"):
         run_time(res, tier, rng, wd)
     stats, levels = {}, []
     if th:
